@@ -117,12 +117,93 @@ def part_histories(chk, tmp):
     chk.notes.setdefault("input_distribution", {})["histories"] = dist
 
 
+def part_submissions(chk, tmp):
+    """whole submissions through the real JobSubmitter / HpcSubmitter.run / resubmit-jobs helpers: the
+    recorded Cluster calls must satisfy run_ok (that is: round_ok is what real rounds guarantee) and
+    match the model; the oracles judge impl's snapshots and the real processed-results file"""
+    rng = chk.rng
+    quick = chk.tier == "quick"
+    cmp_t = _cmp_trace("c09_sub_trace")
+    cmp_ok = _cmp_ok("c09_sub_runok")
+    dist = {"submissions": 0, "rounds": 0, "rounds_with_cancel": 0, "rounds_with_completion": 0, "resubmissions": 0,
+            "partial_resubmissions": 0, "cancels": 0, "batches_died": 0, "round_exceptions": 0, "forced_completions": 0}
+    runs = []
+    for label, spec, sc, script in sd.directed_submissions():
+        runs.append((label, sd.run_submission(rng, tmp, spec, sc, script)))
+    for k in range(40 if quick else 600):
+        runs.append(("random", sd.run_submission(rng, tmp, max_procs=10 if quick else 14)))
+    for label, r in runs:
+        ops, snaps = r["ops"], r["snaps"]
+        comp = "real submission (%s): JobSubmitter/HpcSubmitter.run/resubmit-jobs on a scripted SLURM" % label
+        probs = sd.history_problems(ops, snaps, None, r["rows_after"])
+        if r["error"]:
+            probs.append(("round-exception", "a submitter process died: " + r["error"]))
+            dist["round_exceptions"] += 1
+        for ev in r["events"]:
+            if ev[0] == "unexpected-premutation":
+                probs.append(("unexpected-premutation", "job %s changed state %s -> %s before update_job_status without being canceled" % ev[1:]))
+        for sig, msg in probs:
+            chk.violation(sig, msg, {"component": comp, "spec": r["spec"], "scenario": r["scenario"], "ops": ops,
+                                     "impl_snapshots": snaps, "impl_error": r["error"], "events": r["events"]})
+        cmp_t.add(_inp(r["spec"], ops), sd.trace_term(snaps, None), {"label": label, "scenario": r["scenario"], "ops": ops,
+                                                                   "impl_last": snaps[-1]})
+        cmp_ok.add(_inp(r["spec"], ops), "true", {"label": label, "scenario": r["scenario"], "ops": ops})
+        rounds = [o for o in ops if o["op"] == "round"]
+        chk.count(("submission", json.dumps(r["scenario"], sort_keys=True), json.dumps(ops)), nontrivial=len(rounds) >= 2)
+        dist["submissions"] += 1
+        dist["rounds"] += len(rounds)
+        dist["rounds_with_cancel"] += sum(1 for o in rounds if o["canceled"])
+        dist["rounds_with_completion"] += sum(1 for o in rounds if o["completed"])
+        dist["resubmissions"] += sum(1 for o in ops if o["op"] == "resubmit")
+        dist["partial_resubmissions"] += sum(1 for o in ops if o["op"] == "resubmit" and o.get("partial"))
+        dist["cancels"] += sum(1 for o in ops if o["op"] == "mark_canceled")
+        dist["batches_died"] += sum(1 for e in r["events"] if e[0] == "batch-died")
+        dist["forced_completions"] += sum(1 for i, o in enumerate(ops) if o["op"] == "mark_complete"
+                                          and any(j["state"] != "done" for j in snaps[i + 1]["jobs"]))
+        if label == "random" and dist["submissions"] == 5:
+            chk.sample({"kind": "real submission", "scenario": r["scenario"], "ops": ops})
+    _finish_cmp(chk, cmp_t, "Status.trace vs whole submissions through the real HpcSubmitter.run / JobSubmitter / resubmit-jobs helpers",
+                "correspondence Status.trace vs Cluster as driven by HpcSubmitter.run")
+    _finish_cmp(chk, cmp_ok, "the Cluster calls of real submissions satisfy Status.run_ok (round_ok holds for real rounds)",
+                "round_ok vs real HpcSubmitter.run rounds")
+    chk.notes.setdefault("input_distribution", {})["submissions"] = dist
+
+
+def part_regression_old_resubmit(chk, tmp):
+    """the model of prepare_for_resubmission before /repo commit ce6353a must DISAGREE with impl on its
+    witness (Props/C09.v c09_resubmit_old_formula_refuted)"""
+    J = lambda n: {"name": n, "deps": [], "cancel": False}
+    R = lambda **kw: dict({"op": "round", "pre": [], "submitted": [], "blocked": [], "canceled": [], "completed": [],
+                           "hpc": [], "batch": 2, "new_rows": [], "aliased": True}, **kw)
+    spec = [J("j1"), J("j2")]
+    ops = [R(submitted=["j1"], hpc=["100"]), {"op": "mark_canceled"}, R(), {"op": "mark_complete"},
+           {"op": "resubmit", "rerun": [], "upd": {}}]
+    snaps, err = sd.run_history(spec, ops, tmp)
+    _report(chk, sd.history_problems(ops, snaps, err), "Cluster.prepare_for_resubmission (witness of the repaired miscount)",
+            spec, ops, snaps, err)
+    cmp_ = core.CoqCompare(
+        "c09_old_resubmit", sd.IMPORTS + "\nFrom Jade Require Import StatusProofs.",
+        "fun _ : unit => match run (create old_witness_spec) old_witness_ops with "
+        "| Ok s => match prepare_for_resubmission_old s [] [] with Ok s' => c_submitted (st_cfg s') | Err _ => (-1)%Z end "
+        "| Err _ => (-2)%Z end",
+        "fun a b => negb (Z.eqb a b)", "unit", "Z")
+    cmp_.add("tt", core.cZ(snaps[-1]["submitted_jobs"] if err is None else -3), {"spec": spec, "ops": ops, "impl_last": snaps[-1]})
+    bad = cmp_.run()
+    chk.oblige("regression: impl disagrees with the pre-ce6353a model of prepare_for_resubmission on its witness", not bad,
+               "impl submitted_jobs=%s" % snaps[-1]["submitted_jobs"])
+    if bad:
+        chk.tie_broken("impl agrees again with the refuted pre-ce6353a model of prepare_for_resubmission",
+                       json.dumps({"spec": spec, "ops": ops, "impl_last": snaps[-1]})[:1500])
+    chk.count(("regression-old-resubmit",))
+
+
 def run(chk):
     proofs_ok = core.standard_proof_phase(chk, "C09", gen_needed=("_none_",))
     logging.disable(logging.CRITICAL)
     tmp = tempfile.mkdtemp(prefix="verif_c09_")
     try:
-        parts = [part_enum, lambda c: part_histories(c, tmp)]
+        parts = [part_enum, lambda c: part_histories(c, tmp), lambda c: part_regression_old_resubmit(c, tmp),
+                 lambda c: part_submissions(c, tmp)]
         for part in parts:
             if not proofs_ok and not (core.THEORIES / "Status.vo").exists():
                 break
